@@ -772,3 +772,52 @@ def scale_specs(ctx, rng, reps=2):
                 if k % ctx.nshards == ctx.shard:
                     yield k, nsz, cls, seed
                 k += 1
+
+
+def cis_trans_mixture_pg(rng, cls):
+    """disconnected, achiral, fully specified: a small component with a rare element + cis- and trans-1,3- (or 1,4-)
+    disubstituted rings. The two ring isomers get identical refined colours although their atoms are not exchangeable,
+    so a search for the mapping onto the mirror image has to try (and back out of) wrong roots in a later component."""
+    pg = sem.pg_empty(cls)
+    nxt = [0]
+
+    def new(z):
+        a = nxt[0]
+        nxt[0] += 1
+        pg["atoms"][a] = {"atom_type": z}
+        return a
+
+    def bond(a, b):
+        pg["bonds"][frozenset((a, b))] = {}
+
+    size = rng.choice([4, 6])
+    x_el = rng.choice([9, 17])
+    for flip in (False, True):
+        ring = [new(6) for _ in range(size)]
+        for i in range(size):
+            bond(ring[i], ring[(i + 1) % size])
+        subst = (0, size // 2)
+        for i, c in enumerate(ring):
+            h = new(1)
+            bond(c, h)
+            o = new(x_el if i in subst else 1)
+            bond(c, o)
+            if i in subst:
+                par = 1 if (i == 0 or not flip) else -1
+                # same spatial sense written relative to the ring direction: (c; prev, next, H, X)
+                pg["astereo"][c] = ("Tetrahedral", (c, ring[(i - 1) % size], ring[(i + 1) % size], h, o), par)
+    small = rng.choice(["water", "ammonia", "hf"])
+    if small == "water":
+        o = new(8)
+        bond(o, new(1))
+        bond(o, new(1))
+    elif small == "ammonia":
+        n = new(7)
+        for _ in range(3):
+            bond(n, new(1))
+    else:
+        bond(new(9 if x_el != 9 else 17), new(1))
+    ids = make_ids(rng, len(pg["atoms"]))
+    order = list(pg["atoms"])
+    rng.shuffle(order)
+    return sem.pg_relabel(pg, dict(zip(order, ids)))
